@@ -228,6 +228,11 @@ fn apply_delta(py: Python, py_src_buf: Py<PyAny>, py_delta: Py<PyAny>) -> PyResu
             ops.push((true, cp_off, cp_size));
             outindex += cp_size;
         } else if cmd != 0 {
+            // A truncated insert is an error even when it is the last
+            // operation (checked first so it cannot slip through the break).
+            if index + cmd as usize > delta_len {
+                return Err(ApplyDeltaError::new_err("delta not empty"));
+            }
             if (cmd as usize) > dest_size {
                 break;
             }
@@ -235,9 +240,6 @@ fn apply_delta(py: Python, py_src_buf: Py<PyAny>, py_delta: Py<PyAny>) -> PyResu
             // Raise ApplyDeltaError if there are more bytes to copy than space
             if outindex + cmd as usize > dest_size {
                 return Err(ApplyDeltaError::new_err("Not enough space to copy"));
-            }
-            if index + cmd as usize > delta_len {
-                return Err(ApplyDeltaError::new_err("delta not empty"));
             }
 
             ops.push((false, index, cmd as usize));
